@@ -578,3 +578,29 @@ def r06_7(ctx):
                 if any(k.endswith(".T") and e >= 1 for k, e in d.items()) and any(k.endswith(".N") and e <= -1 for k, e in d.items()):
                     found = True
     ctx.check(found, "embedded positive example (self.T/self.N/self.M) recognised", detail="detector blind", expected="match", found="no match")
+
+
+MUTABLE_CTORS = ("dict", "list", "set", "defaultdict", "OrderedDict", "HashDict", "HashList", "HashOrderedDict")
+
+
+@rule("R06.8", min_instances=8, desc="grid objects are independent: no class-level mutable state in the grid classes (caches belong to the instance)")
+def r06_8(ctx):
+    prog = ctx.prog
+    for cname in prog.subclasses("Grid"):
+        c = prog.cls(cname)
+        bad = []
+        for st in c.node.body:
+            if isinstance(st, (ast.Assign, ast.AnnAssign)):
+                v = st.value
+                if isinstance(v, (ast.Dict, ast.List, ast.Set, ast.DictComp, ast.ListComp)) or (isinstance(v, ast.Call) and ast.unparse(v.func).split(".")[-1] in MUTABLE_CTORS):
+                    bad.append(st)
+        f = c.methods.get("__init__") or prog.resolve(cname, "__init__")
+        ctx.check(not bad, "%s has no class-level mutable attribute" % cname, detail="state shared between all grids of this class (one grid's cached nodes served to another)",
+                  expected="mutable containers are created per instance in __init__", found="; ".join(ast.unparse(b) for b in bad), fi=f, node=(bad[0] if bad else None))
+    d = prog.own_method("DensityGrid", "__init__")
+    ok = any(isinstance(st, ast.Assign) and ast.unparse(st.targets[0]) == "self.cache" and isinstance(st.value, ast.Dict) and not st.value.keys for st in walk_no_nested(d.node))
+    ctx.check(ok, "DensityGrid caches its normalised nodes per instance", detail="cache location", expected="self.cache = {} in __init__", found="", fi=d)
+    nz = prog.own_method("DensityGrid", "normalized")
+    uses = [s for s in walk_no_nested(nz.node) if isinstance(s, ast.Subscript) and ast.unparse(s.value) == "self.cache"]
+    ok = bool(uses) and all(ast.unparse(s.slice) == nz.params[1] for s in uses)
+    ctx.check(ok, "DensityGrid cache is keyed by N on the instance", detail="cache key", expected="self.cache[N]", found="; ".join(ast.unparse(s) for s in uses), fi=nz)
